@@ -633,6 +633,21 @@ func c17suspend(p *Prog, r *Report) {
 			}
 			return dependsOn(l.V, func(x ssa.Value) bool { return qEvict(Lit{V: x, Pos: true}) }) && depOnField(l.V, "removedRound")
 		}
+		// each condition ALONE suspends (the conditions are alternatives, not a conjunction): some path reaches Suspend()
+		// with the eviction literal but without the too-many literal, and some path with the too-many literal but
+		// without the eviction literal
+		pi := p.pathMasks(cs, []Pred{qManyV, qEvictV})
+		aloneMany, aloneEvict := false, false
+		for m := range pi.in[c.Block().Index] {
+			switch pi.predMask(m) & 3 {
+			case 1:
+				aloneMany = true
+			case 2:
+				aloneEvict = true
+			}
+		}
+		r.Check(aloneMany && aloneEvict, rule, "checkSuspend:each-condition-alone", p.ipos(c), fnName(cs), "too many undetermined events alone, and eviction alone, each suspend the node",
+			fmt.Sprintf("Suspend() is not reached by too-many-undetermined-events alone (%v) or by eviction alone (%v): the two conditions were combined into a conjunction, so an evicted node keeps babbling (or a node cut off from the others keeps piling up events) until the other condition happens to hold too", aloneMany, aloneEvict))
 		g, _ := p.allPaths(c, []Pred{qManyV, qEvictV}, func(m uint32) bool { return m != 0 })
 		r.Check(g, rule, "checkSuspend:Suspend-condition", p.ipos(c), fnName(cs), "suspends only when new undetermined events > SuspendLimit x validators, or evicted", "Suspend() is not guarded by (undetermined - initial) > SuspendLimit * validators.Len() or the eviction condition")
 	}
